@@ -32,27 +32,34 @@ class ModelBook(object):
         self.live = [(c, i) for c in schema['classes'] for i in range(1, self.born[c] + 1)]
 
 
-def concretise(schema, labels, rnd):
-    """a schedule of Builds.tla -> concrete calls"""
+def concretise(schema, labels, rnd, split=False):
+    """a schedule of Builds.tla -> concrete calls.  split: the first chunk declares the classes only, the second one brings
+    the associations and identifiers (and rows); a metamodel built in between has another schema and is not judged, the
+    ones built afterwards are"""
     pop = c03.random_population(schema, rnd, rnd.randint(3, 9))
     rnd.shuffle(pop)
     cut = len(pop) // 2
     chunks = {1: {'parts': ['table', 'rop', 'index'], 'rows': []}, 2: {'parts': [], 'rows': pop[:cut]},
               3: {'parts': [], 'rows': pop[cut:]}}
+    if split:
+        chunks[1]['parts'] = ['table']
+        chunks[2]['parts'] = ['rop', 'index']
     if rnd.random() < 0.3:
         chunks[1]['rows'] = chunks[2]['rows'][:1]
         chunks[2]['rows'] = chunks[2]['rows'][1:]
         chunks[1]['shuffle'] = True
     acts = []
     fed_rows = []
+    fed = set()
     books = []
     for lab in labels:
         name, args = tours.parse_label(lab)
         if name == 'Feed':
             acts.append(['Input', chunks[args[0]], rnd.randint(0, 10 ** 6)])
             fed_rows += chunks[args[0]]['rows']
+            fed.add(args[0])
         elif name == 'BuildModel':
-            acts.append(['Build'])
+            acts.append(['Build', {'partial': True}] if split and 2 not in fed else ['Build'])
             books.append(ModelBook(schema, fed_rows))
         elif name == 'Mutate':
             b = books[args[0] - 1]
@@ -150,7 +157,7 @@ def concretise_late(schema, labels, rnd):
     return acts
 
 
-def focus_traces(events):
+def focus_traces(events, schema=None):
     """one recorded multi-model trace -> one MetaTrace trace per built model"""
     nmodels = max((len(e['models']) for e in events), default=0)
     out = []
@@ -165,6 +172,8 @@ def focus_traces(events):
             if e['op'] == 'Input':
                 ev = dict(base, op='Input', rows=e['rows'])
             elif e['op'] == 'Build' and not built and proj is not None and len(e['models']) == k:
+                if e.get('partial'):
+                    break                                # built from the class declarations alone: another schema
                 ev = dict(base, op='BuildFocus', g=e.get('g', -1))
                 built = True
                 undecl = e.get('undecl')
@@ -183,6 +192,14 @@ def focus_traces(events):
                            'schema': {'attrs': {'_': []}, 'uniques': {'_': []}, 'assocs': [], 'extra': ['-']}})
                 if ev['op'] == 'Foreign':
                     continue
+            elif 'pool' not in proj:
+                # the metamodel could not be projected (say, an association it must have is unknown to it): that is what
+                # the trace records (clause observable)
+                empty = {c: [] for c in (schema['classes'] if schema else ['_'])}
+                ev.update({'pool': dict(empty), 'attr': dict(empty), 'spell': dict(empty), 'ser': dict(empty),
+                           'nav': [{'fwd': [], 'bwd': []} for _ in (schema['assocs'] if schema else [])],
+                           'schema': {'attrs': {'_': []}, 'uniques': {'_': []}, 'assocs': [], 'extra': ['-']},
+                           'oerr': proj.get('oerr') or 'no projection'})
             else:
                 ev.update({kk: proj[kk] for kk in ('pool', 'nav', 'attr', 'schema')})
                 if 'peek' in proj:
@@ -217,6 +234,10 @@ def check(tier, replay_path=None):
         for i, labels in enumerate(ts * reps):
             name = names[i % len(names)]
             groups.setdefault(name, []).append({'acts': concretise(schemas.SCHEMAS[name], labels, rnd)})
+        # the associations and identifiers arrive in a later input than the classes, possibly after a build
+        for i, labels in enumerate(ts * reps):
+            name = names[(i + 3) % len(names)]
+            groups.setdefault(name, []).append({'acts': concretise(schemas.SCHEMAS[name], labels, rnd, split=True)})
         # the schema arrives late or never (classes inferred from the rows)
         mc2, g2, ts2, cov2, tot2 = schedules(tier, seed, late=True)
         covered += cov2
@@ -234,7 +255,7 @@ def check(tier, replay_path=None):
         recs = replay.replay('multi', {'schema': schema}, runs)
         traces, owners = [], []
         for run, events in zip(runs, recs):
-            for k, tr in focus_traces(events):
+            for k, tr in focus_traces(events, schema):
                 traces.append(tr)
                 owners.append((run, k))
         maxi = 1
@@ -285,7 +306,9 @@ def check(tier, replay_path=None):
                     'mutations per metamodel; Meta.tla / MetaTrace.tla decide each metamodel',
            'exhaustive': bool(covered == total)}
     evidence.write(PID, tier, 'model_checking', cov, t.s(), rep.n, [
-        'the first input carries the whole schema; later inputs carry rows only',
+        'the first input carries the whole schema and later inputs carry rows only, or the first input declares the classes and '
+        'the second one the associations and identifiers (a metamodel built in between is not judged); or (Late) the CREATE '
+        'TABLE statements arrive anywhere or never',
         'a metamodel whose own schema was changed on purpose is no longer projected (its trace ends); the others still are',
     ])
     return rc
